@@ -1,3 +1,308 @@
+import Bch.Proofs.HDHeap
+/-
+C15 — extended keys are independent values; zeroing really erases them.
+
+Heap-level model `Bch/Model/HDHeap.lean` (which buffers every function of hdkeychain/extendedkey.go
+allocates, shares and writes) on top of the value-level model `Bch/Model/HDKey.lean`.
+Histories are lists of `HOp` executed by `step`/`run` (defined in `Bch/Proofs/HDHeap.lean`):
+`newMaster`, `parse i` (= `NewKeyFromString (String key_i)`), `child i idx`, `neuter i`, `setNet i`,
+`zero i`, `pubKeyBytes i` (every memoising accessor: `Address`, `ECPubKey`, ...).
+All theorems hold for every parameter pack `X : HDExt Pt` of external primitives with `ExtOK X`
+(HMAC-SHA512 returns 64 bytes, Hash160 20 bytes, compressed points 33 bytes, checksum ≥ 4 bytes);
+most need no hypothesis on `X` at all.
+-/
 namespace Bch.Props.C15
-theorem placeholder : True := trivial
+open Bch Bch.Model Bch.Model.HDKey Bch.Model.HDHeap Bch.Proofs.HDHeap
+
+/-! ## frame lemmas -/
+
+/-- **C15_frame.** Writing zeros through slice `r` does not change what any slice `s` that does not
+overlap `r` reads (for in-bounds `s`, and in fact for every `s`); allocating a buffer does not
+change what any existing slice (`s.buf` an existing buffer, or `s` in bounds) reads. -/
+theorem C15_frame (h : Heap) (r s : Ref) (b : Bytes) :
+    (overlap r s = false → (h.zero r).read s = h.read s) ∧
+    (s.buf < h.bufs.length → (h.alloc b).1.read s = h.read s) ∧
+    (s.off + s.len ≤ (h.bufs.getD s.buf []).length → (h.alloc b).1.read s = h.read s) :=
+  ⟨read_zero_of_not_overlap h r s, read_alloc_of_lt h b s, fun hb => read_alloc_of_InB b hb⟩
+
+/-- zeroing never changes the length of any buffer (hence of any read) and only ever writes zeros -/
+theorem C15_frame_zero_shape (h : Heap) (r s : Ref) :
+    ((h.zero r).read s).length = (h.read s).length ∧
+    ((∀ x ∈ h.read s, x = 0) → ∀ x ∈ (h.zero r).read s, x = 0) :=
+  ⟨read_zero_length h r s, read_zero_zeros h r s⟩
+
+/-! ## the heap invariant -/
+
+section
+variable {Pt : Type} (X : HDExt Pt)
+
+/-- The awkward list `overlaps h` is empty iff all non-empty (key, field) ranges are pairwise
+non-overlapping — between different keys and between two fields of one key. -/
+theorem heap_inv_overlaps_meaning (h : Heap) :
+    overlaps h = [] ↔
+      ∀ (i j : Nat) (ki kj : HKey) (f g : Nat), h.keys[i]? = some ki → h.keys[j]? = some kj →
+        f < 4 → g < 4 → (i, f) ≠ (j, g) → 0 < (fld ki f).len → 0 < (fld kj g).len →
+        overlap (fld ki f) (fld kj g) = false :=
+  overlaps_eq_nil_iff h
+
+/-- the invariant holds initially -/
+theorem heap_inv_init : Inv {} := inv_empty
+
+/-- every operation preserves the invariant -/
+theorem heap_inv_step (hX : ExtOK X) (h : Heap) (op : HOp) (hi : Inv h) : Inv (step X h op).1 :=
+  inv_step X hX hi op
+
+/-- **heap_inv.** In every reachable state (after every history from the empty heap) every slice of
+every key lies within its buffer and the writable ranges (key, pubKey, chainCode, parentFP) of all
+keys are pairwise disjoint. -/
+theorem heap_inv (hX : ExtOK X) (ops : List HOp) :
+    (∀ k ∈ (run X {} ops).keys, ∀ r ∈ [k.key, k.pubKey, k.chainCode, k.parentFP],
+        r.off + r.len ≤ ((run X {} ops).bufs.getD r.buf []).length) ∧
+    overlaps (run X {} ops) = [] :=
+  ⟨(inv_run X hX inv_empty ops).bounds, (inv_run X hX inv_empty ops).disj⟩
+
+/-- same, as the `Inv` structure, from any state satisfying the invariant -/
+theorem heap_inv_run (hX : ExtOK X) (h : Heap) (hi : Inv h) (ops : List HOp) : Inv (run X h ops) :=
+  inv_run X hX hi ops
+
+/-- the `getD` in the bounds clause is harmless: a non-empty in-bounds slice has a real buffer -/
+theorem heap_inv_bounds_real (h : Heap) (r : Ref) (hb : r.off + r.len ≤ (h.bufs.getD r.buf []).length)
+    (hl : 0 < r.len) : ∃ b, h.bufs[r.buf]? = some b ∧ r.off + r.len ≤ b.length :=
+  InB.exists_buf (h := h) hb hl
+
+/-! ## independence -/
+
+/-- **C15_independent (one step).** An operation that is not `SetNet j`/`Zero j` itself leaves the
+view (key bytes, chain code, fingerprint, depth, child number, version, privacy flag) of every
+existing key `j` unchanged — in particular `Zero i` for `i ≠ j`, and `pubKeyBytes j`, which only
+sets the memo reference. Both sides are `some _` because `j < h.keys.length` (`viewAt_isSome`). -/
+theorem C15_independent_step (h : Heap) (op : HOp) (j : Nat) (hi : Inv h) (hj : j < h.keys.length)
+    (hn : ¬ targetsDestructively op j) :
+    viewAt (step X h op).1 j = viewAt h j := by
+  rw [viewAt_step X hi op hj]
+  simp [applyOwn_of_not_targets hn]
+
+/-- the same with list indexing instead of `viewAt`: handle `j` still exists and its view is equal -/
+theorem C15_independent_step_getElem (h : Heap) (op : HOp) (j : Nat) (hi : Inv h)
+    (hj : j < h.keys.length) (hn : ¬ targetsDestructively op j) :
+    ∃ hj' : j < (step X h op).1.keys.length,
+      view (step X h op).1 ((step X h op).1.keys[j]'hj') = view h h.keys[j] := by
+  have hj' := Nat.lt_of_lt_of_le hj (keys_length_step X h op)
+  refine ⟨hj', ?_⟩
+  have e := C15_independent_step X h op j hi hj hn
+  rw [viewAt_isSome _ j hj', viewAt_isSome h j hj] at e
+  exact Option.some.inj e
+
+/-- one step, all cases: the view changes exactly by the operation's effect on the key itself
+(`applyOwn`: `setNetV` for `setNet j`, `zeroV` for `zero j`, identity otherwise) -/
+theorem C15_step_exact (h : Heap) (op : HOp) (j : Nat) (hi : Inv h) (hj : j < h.keys.length) :
+    viewAt (step X h op).1 j = (viewAt h j).map fun v => applyOwn j v op :=
+  viewAt_step X hi op hj
+
+/-- handles are never removed -/
+theorem C15_keys_grow (h : Heap) (ops : List HOp) : h.keys.length ≤ (run X h ops).keys.length :=
+  keys_length_run X h ops
+
+/-- **C15_independent (histories).** Split any history as `pre ++ post` where key `j` exists after
+`pre` (e.g. `pre` ends with the operation that created `j`). The view of `j` at the end is its view
+after `pre` transformed by exactly the `setNet j`/`zero j` operations of `post`, in order: no
+operation on any other key has any influence. -/
+theorem C15_independent (hX : ExtOK X) (pre post : List HOp) (j : Nat)
+    (hj : j < (run X {} pre).keys.length) :
+    viewAt (run X {} (pre ++ post)) j =
+      (viewAt (run X {} pre) j).map fun v => post.foldl (applyOwn j) v := by
+  rw [run_append]
+  exact viewAt_run X hX (inv_run X hX inv_empty pre) post hj
+
+/-- corollary: a key that is not itself the target of `SetNet`/`Zero` in `post` keeps its view -/
+theorem C15_independent_untouched (hX : ExtOK X) (pre post : List HOp) (j : Nat)
+    (hj : j < (run X {} pre).keys.length) (hn : ∀ op ∈ post, ¬ targetsDestructively op j) :
+    viewAt (run X {} (pre ++ post)) j = viewAt (run X {} pre) j := by
+  rw [C15_independent X hX pre post j hj]
+  simp [foldl_applyOwn_of_not_targets j post hn]
+
+/-- observations are functions of the view: `String` -/
+theorem C15_string_of_view (h : Heap) (i : Nat) :
+    stringH X h i = match viewAt h i with
+      | none => []
+      | some v => HDKey.String X v :=
+  stringH_eq_viewAt X h i
+
+/-- hence the serialisation of an untouched key never changes -/
+theorem C15_independent_string (hX : ExtOK X) (pre post : List HOp) (j : Nat)
+    (hj : j < (run X {} pre).keys.length) (hn : ∀ op ∈ post, ¬ targetsDestructively op j) :
+    stringH X (run X {} (pre ++ post)) j = stringH X (run X {} pre) j := by
+  rw [stringH_eq_viewAt, stringH_eq_viewAt, C15_independent_untouched X hX pre post j hj hn]
+
+/-- The memo is sound in every reachable state: what a memoising accessor (`pubKeyBytes`, hence
+`ECPubKey`, `Address`, non-hardened `Child`) returns is the public key computed from the view —
+zeroing other keys can never corrupt a cached public key. -/
+theorem C15_memo_sound (hX : ExtOK X) (ops : List HOp) (i : Nat) (k : HKey)
+    (hk : (run X {} ops).keys[i]? = some k) :
+    (pubKeyBytesH X (run X {} ops) i).2 = pubKeyBytes X (view (run X {} ops) k) :=
+  pubKeyBytesH_snd X (memo_run X hX inv_empty (memo_empty X) ops) hk
+
+/-- "Determined by how it was obtained": the view of a freshly created key is the value-level
+result (`NewMaster`, `NewKeyFromString`, `Child`, `Neuter` of `Model/HDKey.lean`) computed from the
+parent's view alone; the new handle is `h.keys.length`. -/
+theorem C15_created (hX : ExtOK X) (ops : List HOp) :
+    let h := run X {} ops
+    (∀ seed hdPriv xk, NewMaster X seed hdPriv = .ok xk →
+        viewAt (step X h (.newMaster seed hdPriv)).1 h.keys.length = some xk) ∧
+    (∀ i xk, NewKeyFromString X (stringH X h i) = .ok xk →
+        viewAt (step X h (.parse i)).1 h.keys.length = some xk) ∧
+    (∀ i idx k c, h.keys[i]? = some k → Child X (view h k) idx = .ok c →
+        viewAt (step X h (.child i idx)).1 h.keys.length = some c) ∧
+    (∀ i k p, h.keys[i]? = some k → k.isPrivate = true → Neuter X (view h k) = .ok p →
+        viewAt (step X h (.neuter i)).1 h.keys.length = some p) := by
+  intro h
+  refine ⟨?_, ?_, ?_, ?_⟩
+  · intro seed hdPriv xk e; exact created_newMaster X hX h e
+  · intro i xk e; exact created_parse X h e
+  · intro i idx k c hk e; exact created_child X hX hk e
+  · intro i k p hk hp e
+    exact created_neuter X (memo_run X hX inv_empty (memo_empty X) ops) hk hp e
+
+/-- **C15_neuter_same_key.** Neutering a public key returns the same handle and changes nothing
+(documented behaviour). -/
+theorem C15_neuter_same_key (h : Heap) (i : Nat) (k : HKey) (hk : h.keys[i]? = some k)
+    (hp : k.isPrivate = false) : neuterH X h i = (h, .key i) :=
+  neuterH_public X hk hp
+
+/-! ## zeroing -/
+
+/-- **C15_zero.** After `Zero` on an existing key `i` (any heap, no invariant needed): the key
+serialises as "zeroed extended key", reports `isPrivate = false` (so `ECPrivKey` yields
+`ErrNotPrivExtKey`), holds the nil key slice, and every byte of the four ranges the key held
+*before* the call reads as 0 (the reads keep their lengths). -/
+theorem C15_zero (h : Heap) (i : Nat) (k : HKey) (hk : h.keys[i]? = some k) :
+    stringH X (zeroH h i) i = zeroedString ∧
+    (∃ k', (zeroH h i).keys[i]? = some k' ∧ k'.isPrivate = false ∧ k'.key = Ref.nil ∧ k'.version = []) ∧
+    (∀ r ∈ [k.key, k.pubKey, k.chainCode, k.parentFP],
+      (∀ b ∈ (zeroH h i).read r, b = 0) ∧ ((zeroH h i).read r).length = (h.read r).length) := by
+  refine ⟨stringH_zeroH X hk, ⟨_, zeroH_key hk, rfl, rfl, rfl⟩, ?_⟩
+  intro r hr
+  rw [zeroH_read hk]
+  exact ⟨zero4_zeros h k r hr, zero4_read_length h k r⟩
+
+/-- with the invariant the four ranges are in bounds, so each reads as exactly `len` zero bytes -/
+theorem C15_zero_replicate (h : Heap) (i : Nat) (k : HKey) (hi : Inv h) (hk : h.keys[i]? = some k) :
+    ∀ r ∈ [k.key, k.pubKey, k.chainCode, k.parentFP], (zeroH h i).read r = List.replicate r.len 0 := by
+  intro r hr
+  have hz := zero4_zeros h k r hr
+  have hl := zero4_read_length h k r
+  rw [← zeroH_read hk] at hz hl
+  have hb : InB h r := hi.bounds k (List.mem_iff_getElem?.mpr ⟨i, hk⟩) r hr
+  rw [eq_replicate_of_zeros hz, hl, read_length hb]
+
+end
+
+/-! ## non-vacuity: a toy instance of the external primitives -/
+
+def toy : HDExt Nat where
+  hmac512 k d := (k ++ d ++ List.replicate 64 7).take 64
+  hash160 d := (d ++ List.replicate 20 9).take 20
+  sha256d d := (d ++ List.replicate 32 5).take 32
+  n := 2 ^ 256
+  mulG k := some k
+  add a b := some (a + b)
+  parse b := if b.length = 33 ∧ b.head? = some 2 then some (Bytes.toNatBE (b.drop 1)) else none
+  serC p := 2 :: Bytes.ofNatBE 32 p
+  serInf := List.replicate 33 0
+
+/-- the hypotheses `ExtOK` are satisfiable -/
+theorem toy_ok : ExtOK toy where
+  hmac512_len k d := by simp [toy] <;> omega
+  hash160_len d := by simp [toy] <;> omega
+  serC_len p := by simp [toy, ofNatBE_length]
+  serInf_len := by simp [toy]
+  sha256d_len d := by simp [toy] <;> omega
+
+def seed : Bytes := List.replicate 16 1
+def xprv : Bytes := [0x04, 0x88, 0xad, 0xe4]
+
+/-- the history of the observed defect, plus accessors: master, neuter it, zero the master,
+memoising accessor on the neutered key, derive a child from the neutered key -/
+def hist : List HOp := [.newMaster seed xprv, .neuter 0, .zero 0, .pubKeyBytes 1, .child 1 0]
+
+/-- a longer history through parsing, hardened private derivation, zeroing, network change and a
+failing `Neuter` (unregistered version) -/
+def hist2 : List HOp :=
+  [.newMaster seed xprv, .parse 0, .child 0 0x80000000, .child 1 5, .zero 1,
+   .setNet 2 [1, 2, 3, 4] [5, 6, 7, 8], .neuter 2]
+
+-- the histories really create keys (the theorems above are not about empty pools)
+example : (run toy {} hist).keys.length = 3 := by decide +kernel
+example : (run toy {} hist2).keys.length = 4 := by decide +kernel
+-- instances of `heap_inv`
+example : overlaps (run toy {} hist) = [] := by decide +kernel
+example : overlaps (run toy {} hist) = [] := (heap_inv toy toy_ok hist).2
+example : overlaps (run toy {} hist2) = [] := by decide +kernel
+-- instance of `C15_independent`: key 1 (the neutered key) after the whole history has the view it
+-- had right after it was created, although its parent was zeroed in between ...
+example : viewAt (run toy {} hist) 1 = viewAt (run toy {} (hist.take 2)) 1 := by decide +kernel
+-- ... and that view is not trivial
+example : (viewAt (run toy {} hist) 1).map (·.key) =
+    some (2 :: (Bytes.ofString "Bitcoin seed" ++ List.replicate 16 1 ++ [7, 7, 7, 7])) := by
+  decide +kernel
+-- instance of `C15_zero`: key 0 is zeroed, and the buffers it used hold only zeros
+example : stringH toy (run toy {} hist) 0 = zeroedString := by decide +kernel
+example : ((run toy {} hist).bufs.take 3).all (·.all (· == 0)) = true := by decide +kernel
+example : ((run toy {} (hist.take 2)).bufs.take 3).all (·.all (· == 0)) = false := by decide +kernel
+-- `C15_neuter_same_key` instance: neutering public key 1 returns handle 1
+example : (∃ k, (run toy {} hist).keys[1]? = some k ∧ k.isPrivate = false) := by decide +kernel
+-- the hypotheses of `C15_independent_step` are satisfiable in a non-trivial state: zeroing the
+-- master (handle 0) right after neutering it leaves the neutered key (handle 1) alone
+example : viewAt (step toy (run toy {} (hist.take 2)) (.zero 0)).1 1 = viewAt (run toy {} (hist.take 2)) 1 :=
+  C15_independent_step toy _ (.zero 0) 1 (heap_inv_run toy toy_ok {} heap_inv_init _)
+    (by decide +kernel) (by simp [targetsDestructively])
+-- the hypotheses of `C15_created` are satisfiable: all four constructors succeed on the toy instance
+example : (match NewMaster toy seed xprv with | .ok _ => true | .error _ => false) = true := by
+  decide +kernel
+example : (match NewKeyFromString toy (stringH toy (run toy {} hist2) 0) with
+    | .ok _ => true | .error _ => false) = true := by decide +kernel
+example : ((run toy {} hist2).keys[0]?.map fun k =>
+    match Child toy (view (run toy {} hist2) k) 0x80000000, Child toy (view (run toy {} hist2) k) 7,
+      Neuter toy (view (run toy {} hist2) k) with
+    | .ok _, .ok _, .ok _ => k.isPrivate
+    | _, _, _ => false) = some true := by decide +kernel
+-- targetsDestructively is non-trivial in `hist`: only `zero 0` targets key 0, nothing targets key 1
+example : ∀ op ∈ hist.drop 2, ¬ targetsDestructively op 1 := by
+  simp [hist, targetsDestructively]
+
+/-! ## negative example: the pre-fix `Neuter` violates the invariant
+
+Before fix ce84569 `Neuter` passed the private key's own `pubKey`, `chainCode` and `parentFP` slices
+to the new key. With that variant the invariant fails right after `Neuter`, and zeroing the parent
+changes the neutered key — so `heap_inv`/`C15_independent` are not vacuous statements. -/
+
+def neuterShared {Pt : Type} (X : HDExt Pt) (h : Heap) (i : Nat) : Heap × OpRes :=
+  match h.keys[i]? with
+  | none => (h, .unit)
+  | some k =>
+    if !k.isPrivate then (h, .key i)
+    else match Neuter X (view h k) with
+      | .error e => (h, .err e)
+      | .ok p =>
+        let (h, _) := pubKeyBytesH X h i
+        match h.keys[i]? with
+        | none => (h, .unit)
+        | some k' =>
+          -- the parent's own slices, by reference
+          let (h, j) := h.addKey ⟨k'.pubKey, Ref.nil, k'.chainCode, k'.parentFP, p.version, p.depth, p.childNum, false⟩
+          (h, .key j)
+
+def sharedHeap : Heap := (neuterShared toy (newMasterH toy {} seed xprv).1 0).1
+
+/-- NEGATIVE: with the sharing `Neuter` three ranges of key 0 overlap three ranges of key 1 -/
+example : overlaps sharedHeap = [((0, 1), (1, 0)), ((0, 2), (1, 2)), ((0, 3), (1, 3))] := by
+  decide +kernel
+
+/-- NEGATIVE: and zeroing key 0 then changes what key 1 serialises to (the observed defect) -/
+example : stringH toy (zeroH sharedHeap 0) 1 ≠ stringH toy sharedHeap 1 := by decide +kernel
+
+/-- whereas with the fixed `neuterH` the same history leaves key 1 alone -/
+example : stringH toy (run toy {} (hist.take 3)) 1 = stringH toy (run toy {} (hist.take 2)) 1 := by
+  decide +kernel
+
 end Bch.Props.C15
